@@ -3,7 +3,8 @@
    capture-only mode are exactly the legal moves of the rules that capture something (a move onto an occupied
    square, or an en-passant capture), each exactly once; castling and quiet moves never appear.  The remaining
    theorems hold for every board content. *)
-From Walleye Require Import Model.Successor Spec.Abs Proofs.MoveGenProofs Proofs.GenerateAbs Proofs.LegalMoves Proofs.CaptureMode.
+From Walleye Require Import Model.Successor Spec.Abs Proofs.MoveGenProofs Proofs.GenerateAbs Proofs.LegalMoves Proofs.CaptureMode Proofs.MakeMoveSame Proofs.PositionGo.
+From Walleye Require Import Model.TextMove Spec.Chess.
 Open Scope Z_scope.
 
 Theorem C13_captures_exactly_legal_captures : forall zt s,
@@ -41,6 +42,35 @@ Proof.
   - right. exact H.
 Qed.
 
+(* ... and so on the boards the text-move applier builds: after `position fen F moves m1 .. mn` (F accepted and denoting a
+   legal position, the moves legal in turn) or `position startpos moves ...`, capture-only generation at the board the
+   command leaves behind yields exactly the legal captures of the position the command describes *)
+Theorem C13_after_a_position_fen_command : forall zt cmds c7 b0 mvs,
+  nth_error cmds 1 = Some str_fen -> nth_error cmds 7 = Some c7 ->
+  from_fen zt (flat_map (fun c => c ++ [32%N]) (firstn 5 (skipn 2 cmds)) ++ c7) = Ok b0 ->
+  legal_position (abs b0) = true -> moves_part cmds mvs -> legal_chain (abs b0) mvs ->
+  exists b t, play_out_position zt cmds = Ok (b, t) /\
+    (forall mv, In (Some mv) (map desc (generate_moves zt b CapturesOnly)) <-> In mv (legal_captures (fold_left apply mvs (abs b0)))) /\
+    NoDup (map desc (generate_moves zt b CapturesOnly)).
+Proof.
+  intros zt cmds c7 b0 mvs N1 N7 F LP MP LC.
+  destruct (position_fen_command zt cmds c7 b0 mvs N1 N7 F LP MP LC) as (b & t & PL & A & PO & _).
+  exists b, t. split; [exact PL|]. rewrite <- A. exact (capture_moves_exact zt b PO).
+Qed.
+Theorem C13_after_a_position_startpos_command : forall zt cmds c1 mvs,
+  nth_error cmds 1 = Some c1 -> str_eqb c1 str_fen = false ->
+  moves_part cmds mvs -> legal_chain start_position mvs ->
+  exists b t, play_out_position zt cmds = Ok (b, t) /\
+    (forall mv, In (Some mv) (map desc (generate_moves zt b CapturesOnly)) <-> In mv (legal_captures (fold_left apply mvs start_position))) /\
+    NoDup (map desc (generate_moves zt b CapturesOnly)).
+Proof.
+  intros zt cmds c1 mvs N1 NF MP LC.
+  destruct (position_startpos_command zt cmds c1 mvs N1 NF MP LC) as (b & t & PL & A & PO & _).
+  exists b, t. split; [exact PL|]. rewrite <- A. exact (capture_moves_exact zt b PO).
+Qed.
+
+Print Assumptions C13_after_a_position_fen_command.
+Print Assumptions C13_after_a_position_startpos_command.
 Print Assumptions C13_captures_exactly_legal_captures.
 Print Assumptions C13_capture_targets_are_the_occupied_targets.
 Print Assumptions C13_capture_targets_are_enemy.
